@@ -8,6 +8,7 @@ R14c the payload of an r-send is taken only from the claimed sender, malformed t
      before any table is touched,
 R14d the delivered value is the stored payload and its digest was compared with the agreed one
      (ready path), the answer's digest was compared (answer path), or n-t answers agree,
+R14g every round of DeliverFrom's wait loop returns a buffered value or runs a delivery step,
 R14f an l-deliver answer vouches only for slots this party delivered itself (s < deliver_s[who]),
 R14e every delivery is for the current channel ID, in FIFO mode for the expected sequence number,
      and advances that sequence number; DeliverFrom hands out a buffered value only for the
@@ -280,6 +281,41 @@ def run(ctx):
                                       'make the requester deliver a slot that no ready quorum exists for' if payload_stored else
                                       'an l-deliver answer does not carry the stored payload'), f, line=ev[4])
     ctx.floor('R14f', nf, 1)
+
+    # ---------------------------------------------------------------- R14g the wait loop makes progress
+    # DeliverFrom polls until its timeout: every round that does not hand out a buffered value must
+    # run one delivery step (Deliver), otherwise messages that have been handed over are never
+    # processed however long the caller waits
+    hs = [h for h in b.cfg.rpo if h.id in b.loop_nodes and not any(h.id in body and h2 != h.id for h2, body in b.loop_nodes.items())]
+    ng = 0
+    for h in hs:
+        body = b.loop_nodes[h.id]
+        progress = set(nid for nid, ev in b.all_events('mcall') if ev[1].endswith('::Deliver') and nid in body)
+        if not progress:
+            continue
+        ng += 1
+        byid = {x.id: x for x in b.cfg.rpo}
+        seen = set()
+        stack = [h]
+        idle = None
+        while stack:
+            x = stack.pop()
+            if x.id in seen or x.id in progress or x.id not in body:
+                continue
+            seen.add(x.id)
+            for y in x.succ:
+                if y is h:
+                    idle = x
+                    break
+                stack.append(y)
+            if idle is not None:
+                break
+        if idle is None:
+            ctx.ok('R14g', 'R14g:DeliverFrom:progress', 'every round of the wait loop either returns a buffered value or runs a delivery step', g, line=h.line)
+        else:
+            ctx.bad('R14g', 'R14g:DeliverFrom:progress', 'a round of the wait loop can end (line %d) without returning and without calling Deliver: while the buffer of this '
+                    'sender holds only values of another channel, messages that were handed over are never processed and the call spins until its timeout' % idle.line, g, line=h.line)
+    ctx.floor('R14g', ng, 1)
 
 
 def chain_back(a, node, limit=60):
